@@ -3,9 +3,9 @@ from vf import Query
 SRC = ["src/xbt/dynar.cpp"]
 OPS = ["insert_at", "remove_at", "push", "pop", "shift", "unshift", "set_at", "get", "member"]
 META = {
-    "bounds": "xbt_dynar only: element size 4 or 8 (concrete per query), capacity 0..4 (quick: 0..3), number of used slots, every element, the index and the new "
+    "bounds": "xbt_dict: set / set / get_or_null (both flavours) / remove_ext sequences of at most 3 operations on a fresh dictionary with two symbolic keys of 1..2 arbitrary non-NUL bytes against a map model; xbt_dynar: element size 4 or 8 (concrete per query), capacity 0..4 (quick: 0..3), number of used slots, every element, the index and the new "
               "value symbolic; one operation per query (insert_at, remove_at, push, pop, shift, unshift, set_at_ptr, get_cpy/get_ptr, member) compared with an array model; unwind 8",
-    "outside": "xbt_dict (string keys: hashing loops over out-of-line code), xbt_dynar_sort (libc qsort), dynars with a free function, cursors/foreach macros, sequences "
+    "outside": "xbt_dict rehashing (needs > 100 keys), cursors, longer keys and longer histories, xbt_dynar_sort (libc qsort), dynars with a free function, cursors/foreach macros, sequences "
                "longer than one step are covered by induction over an arbitrary valid dynar, not by unrolling",
     "stubs": ["xbt logging -> silent", "abort() = violation", "malloc/realloc/free = CBMC's models (allocation never fails)"],
     "assumptions": ["valid dynar: used <= size, data holds size elements"],
@@ -25,4 +25,7 @@ def queries(tier):
                     continue
                 qs.append(Query(f"{name}_elm{elm}_cap{size}", "C50/dynar.cpp", "harness_dynar", dict(P_ELM=elm, P_SIZE=size, P_OP=op), SRC, unwind=10, cap_s=300,
                                 ll2c_cap=16, memcap=80, extra_cbmc=["--unwindset", "ll2c_memcpy_unsigned_char.0:81,ll2c_memmove_unsigned_char.0:81,ll2c_memmove_unsigned_char.1:81,ll2c_memset_unsigned_char.0:81,ll2c_realloc.0:81"]))
+    for m, name in enumerate(("dict_set_get", "dict_set_set_get", "dict_set_set_remove")):
+        qs.append(Query(name, "C50/dict.cpp", "harness_dict", dict(P_MODE=m), ["src/xbt/dict.cpp", "src/xbt/dict_elm.c"], unwind=6, cap_s=2400, mem_gb=12,
+                        prelude=["rbtree", "nostring"], no_pointer_overflow=True, tiers=("thorough",) if m == 0 else ("quick", "thorough")))  # (m == 0: 850 s)
     return qs
